@@ -94,9 +94,23 @@ def run(repo, rep, tier):
                     continue
                 vals = attr_values(repo, f_.cls, arg.attr)
                 if vals is None:
-                    r1b.undecided.append('%s: %s@%s = %s (setter does not '
-                                         'pin the values)' % (
-                                             fq_, e_, a_, norm(arg)))
+                    st0 = f_.cls.find_setter(arg.attr)
+                    if st0 is None:
+                        r1b.undecided.append('%s: %s@%s = %s (no setter)' % (
+                            fq_, e_, a_, norm(arg)))
+                        continue
+                    # a settable attribute whose setter admits any value
+                    r1b.sites += 1
+                    r1b.ob(False, '%s|%s@%s' % (fq_, e_, a_))
+                    rep.finding(r1b, fq_, '%s@%s = %s' % (e_, a_, norm(arg)),
+                                'unvalidated-enum', path_, line_,
+                                'the setter %s stores any value, and the '
+                                'value is written as %s@%s, which the DTD '
+                                'restricts to %s: an object whose attribute '
+                                'was set to something else is serialised '
+                                'into a document that is not DTD-valid '
+                                'instead of being refused'
+                                % (st0.qualname, e_, a_, info['type']))
                     continue
                 facts_ = ()
                 for st_, (fs_, _t) in _sf(f_.node).items():
